@@ -46,6 +46,11 @@ pub enum Event {
     /// re-inject a copy of an old (non-SYN) datagram of the wire log, chosen by fraction x/65535,
     /// into its original destination (stale traffic after a connection ended)
     ReplayOld(u16),
+    /// like ReplayOld, but chosen among the 12 most recent non-SYN datagrams (traffic of the connections that are
+    /// active or closing right now)
+    ReplayRecent(u16),
+    /// like ReplayRecent, among the 6 most recent non-SYN datagrams addressed to socket `sock`
+    ReplayTo { sock: usize, f: u16 },
 }
 
 #[derive(Clone, Debug, Serialize, Deserialize)]
@@ -260,6 +265,25 @@ pub fn run_with(sc: &Scenario, trace: bool, setup: impl FnOnce(&Net)) -> RunResu
                     Event::CutDir { from, to } => net.cut_direction(addrs[*from], addrs[*to]),
                     Event::CancelSocket(i) => socks[*i].1.cancel(),
                     Event::SendPending { sock, n } => net.make_sends_pending(addrs[*sock], *n),
+                    Event::ReplayTo { sock, f } => {
+                        let to = addrs[*sock];
+                        let pick = net.with_log(|log| {
+                            let c: Vec<&WireRec> = log.iter().rev().filter(|r| r.from_stack && r.dst == to && r.pkt.as_ref().is_some_and(|p| p.ptype != crate::model::refparse::ST_SYN)).take(6).collect();
+                            if c.is_empty() { None } else { let r = c[crate::engine::pick_idx(*f, c.len())]; Some((r.src, r.dst, r.bytes.clone())) }
+                        });
+                        if let Some((src, dst, bytes)) = pick {
+                            net.inject(src, dst, bytes, 0);
+                        }
+                    }
+                    Event::ReplayRecent(f) => {
+                        let pick = net.with_log(|log| {
+                            let c: Vec<&WireRec> = log.iter().rev().filter(|r| r.from_stack && r.pkt.as_ref().is_some_and(|p| p.ptype != crate::model::refparse::ST_SYN)).take(12).collect();
+                            if c.is_empty() { None } else { let r = c[crate::engine::pick_idx(*f, c.len())]; Some((r.src, r.dst, r.bytes.clone())) }
+                        });
+                        if let Some((src, dst, bytes)) = pick {
+                            net.inject(src, dst, bytes, 0);
+                        }
+                    }
                     Event::ReplayOld(f) => {
                         let pick = net.with_log(|log| {
                             let c: Vec<&WireRec> = log.iter().filter(|r| r.from_stack && r.pkt.as_ref().is_some_and(|p| p.ptype != crate::model::refparse::ST_SYN)).collect();
